@@ -22,6 +22,7 @@ var c19Docs = []string{
 	`{"weights":{"http://h1:80":1.5}}`,       // one host
 	`{"weights":{"https://h2:443":0,"http://h3:80":2}}`, // two hosts, one with zero weight
 	`{"weights":{"https://h4:443":0}}`,                  // one host announced with weight zero
+	``,                                                  // a zero-length payload: malformed (an update, not a removal)
 }
 
 type c19SyntaxError struct{}
@@ -46,7 +47,7 @@ func ZZStub_encoding_json_Unmarshal(data []byte, v interface{}) error {
 	if doc < 0 {
 		panic("json stub: document outside the menu: " + string(data))
 	}
-	if doc == 0 {
+	if doc == 0 || doc == 5 {
 		return c19SyntaxError{}
 	}
 	switch u := v.(type) {
@@ -114,11 +115,11 @@ func Harness_C19_Fold() {
 		switch {
 		case ev.Data == nil: // deletion
 			verif.Assert(!ok, "a deleted node is still announced")
-		case kind == 0 || kind == 1: // malformed or weight-less: ignored
+		case kind == 0 || kind == 1 || kind == 5: // malformed (also a zero-length payload) or weight-less: ignored
 			verif.Assert(ok == had && got == old, "a malformed or weight-less update was not ignored")
 		default:
 			verif.Assert(ok && got != old, "a valid update was not applied")
-			wantHosts := []int{0, 0, 1, 2, 1}[kind]
+			wantHosts := []int{0, 0, 1, 2, 1, 0}[kind]
 			verif.Assert(len(got.Weights) == wantHosts, "the applied announcement does not carry the payload's hosts")
 			for h := range got.Weights {
 				verif.Assert(h.Host != "old"+c19Nodes[target][1:] && h.Host != "old", "the announcement still lists the old host")
@@ -135,7 +136,7 @@ func Harness_C19_Fold() {
 		switch {
 		case ev.Data == nil && had:
 			want--
-		case kind >= 2 && kind < len(c19Docs) && !had:
+		case kind >= 2 && kind <= 4 && !had:
 			want++
 		}
 	}
